@@ -1,4 +1,5 @@
 """C12 - original, primitive and conventional descriptions are mutually consistent.  Spec: Crystal.tla (V12)."""
+from .. import tlc
 from ..common import Run, scratch
 from . import symcommon
 
@@ -52,6 +53,18 @@ def run(tier):
     streams = [0] if tier == "quick" else [0, 1, 2, 3]
     jobs = [(sg, s, 3 if tier == "quick" else 4, None, 64, "C12") for sg in range(1, 231) for s in streams]
     recs = symcommon.collect(run, jobs)
+    # design model of the label transport (np.unique representatives + two index maps), with the two refuted variants
+    from ..common import MachineryError
+
+    mres = tlc.run("Mappings.tla", "Mappings_unique.cfg")
+    if mres.violated:
+        raise MachineryError("Mappings.tla violates %s" % mres.violated)
+    run.add_model(mres, "Mappings: every dataset with 5 input, 3 primitive, 4 standardized atoms (LabelsCarried)")
+    for v in ("first_increase", "arange"):
+        vres = tlc.run("Mappings.tla", "Mappings_%s.cfg" % v, must_pass=False)
+        if vres.violated != "LabelsCarried":
+            raise MachineryError("vacuity guard: Mappings variant %s should violate LabelsCarried" % v)
+    run.notes["mappings_variants_refuted"] = ["first_increase", "arange"]
     symcommon.judge(run, recs, "C12", d, lambda r, c: (
         "C12 clause=%s sg=%d letters=%s p_index=%s" % (c, r["sg"], r["gen_letters"], r["pres"].get("p_index")),
         "%s: n_in=%d n_prim=%d n_conv=%d on a crystal of group %d (presentation %s)" % (c, r["n_in"], r["prim"]["n"], r["conv"]["n"], r["sg"], r["pres"])))
